@@ -9,11 +9,75 @@ use rand_chacha::ChaCha20Rng;
 use serde_json::json;
 use std::collections::{BTreeMap, BTreeSet};
 
-pub const RULE: &str = "all 28 exported data types (26 with byte conversions + SignatureSchemes and Bls12381 through serde and their u8/str conversions) x 2 groups x every enum variant x values {honestly generated; identity points; edge scalars 1,2,3,r-1,r-2,...; empty / 64 KiB payloads; every share identifier 1..=255; timestamps 0, 127, 128, u64::MAX}. For each value and each codec of {Vec::from(&T)/T::try_from(&[u8]); the four container conversions From<T> for Vec<u8>, TryFrom<Vec<u8>>, TryFrom<&Vec<u8>>, TryFrom<Box<[u8]>>; serde_bare; serde_json; to/from_be_bytes and to/from_le_bytes for the scalar types}: encode twice (determinism), decode, require equality with the original AND byte equality of the re-encoding. A per-(type, codec) length table measured in the run must have exactly one entry for fixed-size types (bytes and serde_bare codecs; serde_json per variant). Distinct by (suite,type,codec,encoded bytes); every case is non-trivial (a value was encoded, decoded and compared).";
+pub const RULE: &str = "all 28 exported data types (26 with byte conversions + SignatureSchemes and Bls12381 through serde and their u8/str conversions) x 2 groups x every enum variant x values {honestly generated; identity points; edge scalars 1,2,3,r-1,r-2,...; empty / 64 KiB payloads; every share identifier 1..=255; timestamps 0, 127, 128, u64::MAX}. For each value and each codec of {Vec::from(&T)/T::try_from(&[u8]); the four container conversions From<T> for Vec<u8>, TryFrom<Vec<u8>>, TryFrom<&Vec<u8>>, TryFrom<Box<[u8]>>; serde_bare; serde_json; to/from_be_bytes and to/from_le_bytes for the scalar types}: encode twice (determinism), decode, require equality with the original AND byte equality of the re-encoding. A per-(type, codec) length table measured in the run must have exactly one entry for fixed-size types (bytes and serde_bare codecs; serde_json per variant). Distinct by (suite,type,codec,encoded bytes); every case is non-trivial (a value was encoded, decoded and compared). History cluster: for two values of every type of both group assignments the questions {encode, byte round trip, serde_bare round trip, serde_json round trip} are asked in ordered pairs (a,b) as a,b,b,a - every pair about one type, 1500 / 8000 sampled pairs across types and groups - and must always answer the same bytes.";
 
 pub fn run(ctx: &mut Ctx) {
     for_both!(run_suite, ctx);
     enums(ctx);
+    history(ctx);
+}
+
+/// Collects, for the first samples of every type of one group assignment, the questions
+/// "encode", "decode and re-encode" through the byte form, serde_bare and serde_json, with the
+/// answers computed once while collecting.
+struct H {
+    suite: &'static str,
+    per_type: usize,
+    qs: Vec<super::history::Q<'static, Option<Vec<u8>>>>,
+}
+
+impl<C: Suite> Visitor<C> for H {
+    fn visit<T: Subject<C>>(&mut self, env: &Env<C>, rng: &mut ChaCha20Rng) {
+        use super::history::q;
+        let samples = T::samples(env, rng, false);
+        let fam = format!("{}:{}", self.suite, T::NAME);
+        // honest first sample plus the last (an edge value) of the type
+        let mut picked: Vec<(String, T)> = Vec::new();
+        let last = samples.len().saturating_sub(1);
+        for (i, (label, x)) in samples.into_iter().enumerate() {
+            if i < self.per_type.saturating_sub(1) || i == last {
+                picked.push((label, x));
+            }
+        }
+        for (i, (_label, x)) in picked.into_iter().enumerate() {
+            let b = x.w_bytes();
+            let (x1, b1) = (x.clone(), b.clone());
+            self.qs.push(q(format!("{fam}/value-{i}/to-bytes"), Some(b.clone()), move || Some(x1.w_bytes())));
+            self.qs.push(q(format!("{fam}/value-{i}/bytes-round-trip"), Some(b.clone()), move || T::w_from(&b1).ok().map(|y| y.w_bytes())));
+            if let Ok(bb) = x.bare() {
+                let x2 = x.clone();
+                self.qs.push(q(format!("{fam}/value-{i}/bare-round-trip"), Some(b.clone()), move || x2.bare().ok().and_then(|e| T::from_bare(&e).ok()).map(|y| y.w_bytes())));
+                let _ = bb;
+            }
+            if x.json().is_ok() {
+                let x3 = x.clone();
+                self.qs.push(q(format!("{fam}/value-{i}/json-round-trip"), Some(b.clone()), move || x3.json().ok().and_then(|e| T::from_json(&e).ok()).map(|y| y.w_bytes())));
+            }
+        }
+    }
+}
+
+/// History cluster over the codecs of BOTH group assignments: every ordered pair of questions
+/// about one type, plus sampled pairs across types and groups, asked as a, b, b, a.
+fn history(ctx: &mut Ctx) {
+    use super::history::{family_pairs, sandwich_pairs};
+    ctx.require("history");
+    let g = (1u64 << 40) + 7;
+    if !ctx.mine(g) {
+        return;
+    }
+    let mut rng = ctx.rng(g);
+    let mut erng = ctx.rng_l(g, "env");
+    let mut h = H { suite: "G1Impl", per_type: 2, qs: Vec::new() };
+    let env1 = Env::<Bls12381G1Impl>::new(&mut erng);
+    codec::visit_all::<Bls12381G1Impl, _>(&mut h, &env1, &mut erng);
+    h.suite = "G2Impl";
+    let env2 = Env::<Bls12381G2Impl>::new(&mut erng);
+    codec::visit_all::<Bls12381G2Impl, _>(&mut h, &env2, &mut erng);
+    let qs = h.qs;
+    let pairs = family_pairs(&qs, ctx.tier.pick(1500, 8000), &mut rng);
+    let d = || json!({"note":"every question answers the value's byte form (after the named round trip)"});
+    sandwich_pairs(ctx, "C15", "history", "codecs", b"both-groups", &d, &qs, &pairs);
 }
 
 struct V<'a> {
